@@ -8,6 +8,7 @@ from .. import AnalysisError
 from ..absint import Interp, State
 from ..astutil import attr_chain, bind_call, deref, names_in, raises_class, walk_stmts
 from ..cfg import EXIT, cfg_of
+from ..consteval import ConstEval
 from ..domains.ownership import OwnDomain
 from ..model import src_of
 from ..schema import scalar_attr_names
@@ -56,7 +57,7 @@ def static_len(e):
 
 def run(ctx):
     prog = ctx.prog
-    ctx.clauses_decided = ["R1 both loaders go through the cascade", "R2 accept only after a norm check of the stored values", "R3 unfixable => LoadError", "R4 every correction is announced", "R5 vendor factor lists well-formed", "R6 corrections copy"]
+    ctx.clauses_decided = ["R1 both loaders go through the cascade", "R2 accept only after a norm check of the stored values", "R3 unfixable => LoadError", "R4 every correction is announced", "R5 vendor factor lists well-formed", "R6 corrections copy", "R7 every shell reaches the correction", "R8 norm expression (symbolic)", "R9 cascade semantics (evaluated)", "R10 helper uniformity (evaluated)", "R11 Molden tag meaning (finite-domain evaluation)"]
     ctx.clauses_declined = ["which branch a given file takes", "orthonormality of corrected orbitals", "numerical content of the vendor factors"]
     lo_molden = prog.func("iodata.formats.molden.load_one")
     lo_molekel = prog.func("iodata.formats.molekel.load_one")
@@ -345,6 +346,10 @@ def run(ctx):
     from .c05_semantics import check_helper_uniformity
 
     check_helper_uniformity(ctx, "R10", list({g.qualname: g for g in helpers}.values()))
+    ctx.rule("R11", "Molden pure/Cartesian tag lines are read with the meaning the format assigns to them", "a [5D10F] file (pure d, Cartesian f, as several vendors write) gets f shells of the wrong size before any vendor correction is tried")
+    from .c01 import check_molden_reader_tags
+
+    check_molden_reader_tags(ctx, ConstEval(prog), "R11")
 
 
 def check_norm_expression(ctx, pred):
